@@ -340,6 +340,93 @@ class _CmArr:
         return _Cm(self, i)
 
 
+class _IdxSeq:
+    """index_list of symbolic length: only len() and item access are used by the loop `for i in index_list`"""
+    _pyvc_symbolic = True
+
+    def __init__(self, n, arr):
+        self.n, self.arr = n, arr
+
+    def slen(self):
+        return self.n
+
+    def __getitem__(self, k):
+        return SPyInt(z3.Select(self.arr, A._zi(k)))
+
+
+@register("C12")
+class SetUseCapsSelectionAllLengths(FunctionContract):
+    """set_use_caps, selection loop, for an index list of ANY length (allow_doubles=True so that only the selection loop runs):
+    bit b of the result is set iff (add and bit b of the previous mask) or b occurs in index_list -- stated for one generic bit b
+    (a fixed but arbitrary input), which is the universally quantified statement; the loop is cut at that invariant."""
+    name = "set_use_caps_selection_all_lengths"
+    target = "pydl.pydlutils.mangle:set_use_caps"
+    level = "P"
+    int_mode = "bv"
+    assumptions = ["use-mask and indices are Python ints: previous mask in [0, 2**63), every index in [0, 63) (64-bit model with no-lost-bit obligation on 1 << i)",
+                   "allow_doubles=True (the duplicate-removal loops are covered by the bounded job set_use_caps)",
+                   "generic bit b in [0, 63): the clause for one arbitrary fixed b is the clause for all b"]
+
+    def cases(self, tier):
+        return ["add", "fresh"]
+
+    def inputs(self):
+        return dict(n=sym_int("n_index"), old=sym_pyint("old"), b=sym_pyint("b"), idx=z3.Array("index_list", z3.IntSort(), z3.BitVecSort(64)))
+
+    def requires(self, n, old, b, idx):
+        if isinstance(old, SBV):
+            q = z3.Int("q_req")
+            return S.AND(n >= 0, old >= 0, b >= 0, b < 63,
+                         SBool(z3.ForAll([q], z3.Implies(z3.And(q >= 0, q < n.z), z3.And(z3.Select(idx, q) >= 0, z3.Select(idx, q) < 63)),
+                                         patterns=[z3.Select(idx, q)])))
+        return old >= 0 and 0 <= b < 63 and all(0 <= k < 63 for k in idx)
+
+    @staticmethod
+    def _bit(v, b):
+        if isinstance(b, SBV) and not isinstance(v, SBV):
+            v = SPyInt(z3.BitVecVal(int(v), 64))
+        if isinstance(v, SBV):
+            return SBool(z3.Extract(0, 0, z3.LShR(v.z, b.z)) == z3.BitVecVal(1, 1))
+        return bool((int(v) >> int(b)) & 1)
+
+    def _want(self, upto, old, b, idx):
+        add = self.case == "add"
+        if isinstance(old, SBV):
+            occurs = S.exists(0, upto, lambda k: SBool(z3.Select(idx, k.z) == b.z))
+            return S.OR(self._bit(old, b), occurs) if add else occurs
+        return (add and self._bit(old, b)) or any(int(k) == int(b) for k in list(idx)[:int(upto)])
+
+    def call(self, fn, n, old, b, idx):
+        seq = _IdxSeq(n, idx) if isinstance(old, SBV) else list(idx)
+        poly = types.SimpleNamespace(ncaps=0, x=None, cm=None, use_caps=old)
+        r = fn(poly, seq, add=(self.case == "add"), allow_doubles=True)
+        return (r, poly.use_caps)
+
+    def ensures(self, result, n, old, b, idx):
+        ret, stored = result
+        if isinstance(old, SBV):
+            return {"returns_stored_mask": SBool(ret.z == stored.z),
+                    "bit_b_iff_kept_or_listed": S.iff(self._bit(stored, b), self._want(n, old, b, idx)),
+                    "no_bit_beyond_62": S.AND(stored >= 0)}
+        return {"returns_stored_mask": ret == stored,
+                "bit_b_iff_kept_or_listed": self._bit(stored, b) == self._want(n, old, b, idx),
+                "no_bit_beyond_62": 0 <= stored < 2 ** 63}
+
+    def loop_specs(self, a):
+        old, b, idx = a["old"], a["b"], a["idx"]
+
+        def inv(v):
+            u = v.polygon.use_caps
+            ix = getattr(v, "__ix0")
+            return [u >= 0, S.iff(self._bit(u, b), self._want(ix, old, b, idx))]
+        return {"index_list": dict(inv=inv, fresh={"polygon.use_caps": lambda obj, v: sym_pyint("use_caps")})}
+
+    def samples(self, rng):
+        for _ in range(200):
+            L = rng.randint(0, 6)
+            yield dict(n=L, old=rng.getrandbits(rng.randint(1, 62)), b=rng.randint(0, 62), idx=[rng.randint(0, 62) for _ in range(L)])
+
+
 @register("C12")
 class SetUseCaps(FunctionContract):
     """set_use_caps: exactly the listed bits (plus the old ones with add=True), minus later duplicates of a selected cap"""
